@@ -57,5 +57,11 @@ func main() {
 		}
 	}()
 	fn(r)
+	if r.Thorough() && *prop != "C02" && *prop != "C07" {
+		// thorough tier: the same rules once more on the tree as the CI builds it (tags jsoniter, slimcap_nomock:
+		// capture_nomock.go instead of capture_mock.go); obligations are keyed by configuration and united
+		r.Remap = map[string]string{"cgo": "ci"}
+		fn(r)
+	}
 	r.Finish()
 }
